@@ -1120,13 +1120,11 @@ func ruleEnumUse(c *Ctx) []Obligation {
 	var helper *ssa.Function
 	// … or the function or method that took the closure's place
 	cands := append([]*ssa.Function{}, res.AnonFuncs...)
-	eachInstr(res, func(in ssa.Instruction) {
-		if ci, isC := in.(ssa.CallInstruction); isC {
-			if cal := ci.Common().StaticCallee(); cal != nil && c.isRepoFn(cal) && cal != res && cal.Blocks != nil {
-				cands = append(cands, cal)
-			}
+	for _, cal := range c.staticReach(res, 2) {
+		if cal != res {
+			cands = append(cands, cal)
 		}
-	})
+	}
 	for _, an := range cands {
 		hasSet, hasNext := false, false
 		eachInstr(an, func(in ssa.Instruction) {
@@ -1154,6 +1152,27 @@ func ruleEnumUse(c *Ctx) []Obligation {
 		}
 	}
 	good := true
+	// the value node: the helper's *Value parameter, or the *Value field of a structure it is handed (a member
+	// description with node, name and value)
+	isValueRef := func(x ssa.Value) bool {
+		if x == valueP {
+			return true
+		}
+		if p, f := structParamFieldIn(x, helper); p != nil && p.Parent() == helper {
+			if pt, isP := f.Type().(*types.Pointer); isP && namedOf(pt.Elem()) != nil && objName(namedOf(pt.Elem()).Obj()) == "Value" {
+				return true
+			}
+		}
+		return false
+	}
+	var nilTests []*ssa.BinOp
+	eachInstr(helper, func(in ssa.Instruction) {
+		if bo, okb := in.(*ssa.BinOp); okb {
+			if x, _, okn := nilTest(bo); okn && isValueRef(x) {
+				nilTests = append(nilTests, bo)
+			}
+		}
+	})
 	eachInstr(helper, func(in ssa.Instruction) {
 		call, ok := in.(*ssa.Call)
 		if !ok || call.Call.StaticCallee() == nil {
@@ -1166,14 +1185,14 @@ func ruleEnumUse(c *Ctx) []Obligation {
 		wantNil := nm == "SetNext"
 		g := false
 		for _, gd := range guardsAt(call.Block()) {
-			if x, isEq, okn := nilTest(gd.Cond); okn && x == valueP && (isEq == gd.Branch) == wantNil {
+			if x, isEq, okn := nilTest(gd.Cond); okn && isValueRef(x) && (isEq == gd.Branch) == wantNil {
 				g = true
 			}
 		}
 		// Set after `if value == nil { return SetNext }`
 		if !g && !wantNil {
-			for _, r := range *valueP.Referrers() {
-				if bo, okb := r.(*ssa.BinOp); okb {
+			for _, r := range nilTests {
+				if bo := r; bo != nil {
 					if _, isEq, okn := nilTest(bo); okn {
 						for _, rr := range *bo.Referrers() {
 							if ifi, oki := rr.(*ssa.If); oki {
@@ -1209,12 +1228,36 @@ func ruleEnumUse(c *Ctx) []Obligation {
 				return
 			}
 			for _, cal := range c.Callees(call) {
-				if cal != helper {
+				viaHelper := cal == helper
+				if !viaHelper && c.isRepoFn(cal) && cal.Blocks != nil {
+					for _, f2 := range c.staticReach(cal, 1) {
+						if f2 == helper {
+							viaHelper = true
+						}
+					}
+				}
+				if !viaHelper {
 					continue
 				}
-				last := call.Call.Args[len(call.Call.Args)-1]
-				if _, f, _ := loadedField(last); f != nil && f.Name() == kind.arg {
-					okk = true
+				for _, a := range call.Call.Args {
+					if _, f, _ := loadedField(a); f != nil && f.Name() == kind.arg {
+						okk = true
+					}
+					// a member description written at the call: one of its fields is given the member's value
+					if ld, isL := a.(*ssa.UnOp); isL {
+						if cell, isA := ld.X.(*ssa.Alloc); isA {
+							st := cell.Type().Underlying().(*types.Pointer).Elem().Underlying()
+							if stt, isS := st.(*types.Struct); isS {
+								for i := 0; i < stt.NumFields(); i++ {
+									if v, known := literalField(a, stt.Field(i)); known && v != nil {
+										if _, f, _ := loadedField(v); f != nil && f.Name() == kind.arg {
+											okk = true
+										}
+									}
+								}
+							}
+						}
+					}
 				}
 			}
 		})
